@@ -51,6 +51,7 @@ type frame struct {
 	callPos          token.Pos
 	symIter          map[*ssa.If]int
 	skipPhi          bool
+	mergedReturn     bool
 }
 
 // Interp interprets one path of one harness.
@@ -536,6 +537,10 @@ func (in *Interp) visitInstr(fr *frame, instr ssa.Instruction) continuation {
 			}
 		} else {
 			if in.tryMerge(fr, instr, c) {
+				if fr.mergedReturn {
+					fr.mergedReturn = false
+					return kReturn
+				}
 				return kJump
 			}
 			// unwinding guard on symbolic loop conditions
@@ -775,13 +780,36 @@ func (in *Interp) store(addr Value, v Value) {
 			panic(runtimeError("invalid memory address or nil pointer dereference"))
 		}
 		in.cellEvent(p, true)
-		*p = copyVal(v)
+		assignCell(p, v)
 		return
 	case SymPtr:
 		p.Mem.Arr = in.tc.Store(p.Mem.Arr, p.Idx, v.(*Term))
 		return
 	}
 	panic(engineErr{fmt.Sprintf("store to %T", addr)})
+}
+
+// assignCell stores v into the cell, keeping the identity of the field and
+// element cells of aggregates (pointers to fields taken before a whole-struct
+// store stay valid, as in real memory).
+func assignCell(p *Value, v Value) {
+	switch src := v.(type) {
+	case Struct:
+		if dst, ok := (*p).(Struct); ok && len(dst) == len(src) {
+			for i := range src {
+				assignCell(&dst[i], src[i])
+			}
+			return
+		}
+	case Array:
+		if dst, ok := (*p).(Array); ok && len(dst) == len(src) {
+			for i := range src {
+				assignCell(&dst[i], src[i])
+			}
+			return
+		}
+	}
+	*p = copyVal(v)
 }
 
 func (in *Interp) unop(fr *frame, instr *ssa.UnOp, x Value) Value {
@@ -1114,6 +1142,18 @@ func (in *Interp) makeSlice(t types.Type, lenv, capv Value) Value {
 	c := capv.(*Term)
 	const bigLimit = 1 << 16
 	isByte := widthOf(elem) == 8
+	if isByte && !l.IsConst() && l == c {
+		// optionally concretise small symbolic sizes so that content is tracked exactly
+		if lim := in.param("concretize_make", 0); lim > 0 {
+			l64 := in.to64(l, true)
+			small := in.tc.And(in.tc.Cmp(OpSle, in.tc.BV(64, 0), l64), in.tc.Cmp(OpSle, l64, in.tc.BV(64, uint64(lim))))
+			if in.branch(small) {
+				v := in.concretize(l64, "make([]byte, n)")
+				l = in.tc.BV(l.W, uint64(v))
+				c = l
+			}
+		}
+	}
 	if isByte && (!l.IsConst() || !c.IsConst() || c.Int64() > bigLimit) {
 		l64, c64 := in.to64(l, true), in.to64(c, true)
 		in.check(in.tc.Cmp(OpSle, in.tc.BV(64, 0), l64), "makeslice: len out of range")
@@ -1240,14 +1280,18 @@ func (in *Interp) concretizeRange(t *Term, lo, hi int, what string) int64 {
 	if !in.branch(inR) {
 		return int64(hi) + 1
 	}
-	if hi-lo > 4096 {
-		panic(engineErr{"concretizeRange: range too large for " + what})
-	}
-	for k := lo; k < hi; k++ {
-		if in.branch(tc.Eq(t64, tc.BV(64, uint64(k)))) {
-			return int64(k)
+	if hi-lo <= 3 {
+		for k := lo; k < hi; k++ {
+			if in.branch(tc.Eq(t64, tc.BV(64, uint64(k)))) {
+				return int64(k)
+			}
 		}
+		return int64(hi)
 	}
+	return in.concretize(t64, what)
+}
+
+func (in *Interp) concretizeRangeOld(t *Term, lo, hi int) int64 {
 	return int64(hi)
 }
 
